@@ -10,6 +10,7 @@
 import json, os, shutil, subprocess, sys, concurrent.futures as cf, re
 
 VENV = '/venv/bin/python'
+HERE = os.path.dirname(os.path.abspath(__file__))
 BASE = json.load(open('/root/.vp/BASELINE.json'))
 ALWAYS = set(BASE['always_fail'])
 
@@ -83,7 +84,7 @@ def detect(d, props, tier):
     res = {}
     def one(p):
         e = dict(os.environ, VERIF_REPO=root, VERIF_OUT_DIR=root + '/out', VERIF_EVIDENCE_DIR=root + '/evidence')
-        r = subprocess.run(['python3', '/verif/check.py', p, '--tier', tier], cwd='/verif', env=e, capture_output=True, text=True)
+        r = subprocess.run(['python3', os.path.join(HERE, 'check.py'), p, '--tier', tier], cwd=HERE, env=e, capture_output=True, text=True)
         lines = [l for l in r.stdout.splitlines() if l.startswith(('VIOLATION', 'KNOWN'))]
         detail = []
         for l in lines[:4]:
